@@ -78,9 +78,14 @@ def near_name(n):
     return [n.upper(), n + " ", " " + n, n.capitalize()]
 
 
-KEYS = ["none", "empty", "keyA", "keyB", "keyBad", "garbage"]
-CERTS = ["none", "empty", "certA", "certB", "certBad", "trunc", "garbage"]
-CAS = ["none", "empty", "ca", "ca2", "cakey", "caBad", "garbage", "certA"]
+# MIXED bundles (good + damaged block, damaged + good, good + non-certificate block, good + garbage, two good):
+# a lenient loader and the strict parsers of the data plane disagree on some of them
+CA_MIXED = ["caGoodBad", "caBadGood", "caGoodKey", "caGoodGarbage", "caGarbageGood", "caGoodTrunc"]
+CERT_MIXED = ["certAChain", "certAGoodBad", "certBadGood", "certAGarbage", "certKeyA"]
+KEY_MIXED = ["keyAGarbage", "keyBadGood", "certKeyA"]
+KEYS = ["none", "empty", "keyA", "keyB", "keyBad", "garbage"] + KEY_MIXED
+CERTS = ["none", "empty", "certA", "certB", "certBad", "trunc", "garbage"] + CERT_MIXED
+CAS = ["none", "empty", "ca", "ca2", "cakey", "caBad", "garbage", "certA"] + CA_MIXED
 NUMS = [0, 1, 5, 10, 100, -1, I32MAX, I32MIN]
 STRATS = ["", "local", "globalAllocate", "globalCount", "bogus", "LOCAL"]
 SNAMES = ["s1", "s2", "s3", ""]
@@ -140,6 +145,11 @@ def corpus():
     cs.append(mut(ss__ca="empty", ss__key="empty"))
     for ca in CAS:
         cs.append(mut(cc__ca=ca))
+        cs.append(mut(ss__ca=ca))                                       # seed C16-d: lenient pool loader in validation only
+    for ce in CERT_MIXED + ["certA"]:
+        for ke in KEY_MIXED + ["keyA"]:
+            cs.append(mut(ss__key=ke, ss__cert=ce))
+            cs.append(mut(cc__key=ke, cc__cert=ce, cc__token="none"))
     cs.append(mut(cc__key="keyA", cc__cert="certA", cc__token="none"))
     cs.append(mut(cc__key="keyA", cc__cert="certB"))
     cs.append(mut(cc__key="keyA"))
@@ -309,7 +319,7 @@ def well_formed(rng):
     elif k == 3:
         ss["key"] = "keyA"          # only one of the pair: accepted, "no certificate"
     elif k == 4:
-        ss["cert"], ss["ca"] = "certA", "ca2"
+        ss["cert"], ss["ca"] = "certA", rng.choice(["ca2", "caGoodKey", "caGoodGarbage", "caGarbageGood"])
     ss["names"] = rng.sample(["alias.example.com", "C1.Example", "c2"], rng.below(3))
     names = rng.sample(["s1", "s2", "s3"], rng.below(4))
     o["schemas"] = [good_schema(rng, n) for n in names]
